@@ -204,7 +204,8 @@ def run(ctx):
     bounds_rule(ctx)
     blocks_rule(ctx)
     # premature end of input on the reader path: exact reads with propagated errors (shared with C11)
-    from .c11 import slice_rule, varint_rule, fixedbuf_rule
+    from .c11 import slice_rule, varint_rule, fixedbuf_rule, shortread_rule
+    shortread_rule(ctx)
     from .c02 import freezemap_rule
     freezemap_rule(ctx)
     from .c07 import resolution_rules
@@ -675,6 +676,11 @@ def blocks_rule(ctx):
     else:
         d = '%d skip_bytes call(s) on the ignoring path' % len(sk)
     ctx.ob('BLOCKS', 'read_block_len/skip-by-advertised-size', ok, short_loc(b.span), d)
+    # ... and nothing else is skipped there: a block without an advertised byte size is decoded item by item (the
+    # encoded size of an item is not a constant of its schema: varints grow with the value)
+    other = [short_loc(x[1].get('span')) for x in skips if x[0] not in ign_reg and not b.is_cleanup(x[0])]
+    ctx.ob('BLOCKS', 'read_block_len/no-computed-skip', not other, short_loc(b.span),
+           'skip_bytes calls outside the advertised-size branch of the block header: %s' % (other or 'none'))
     # after skipping, the loop continues with the next header: the skip's success edge reaches the count read again
     if sk:
         te = try_edges(b, sk[0][0])
